@@ -80,6 +80,7 @@ impl ChannelRegion for US915Region {
 }
 
 impl FixedChannelRegion for US915Region {
+    const JOIN_DR_125KHZ: DR = DR::_0;
     const JOIN_DR_500KHZ: DR = DR::_4;
     fn uplink_channels() -> &'static [u32; 72] {
         &UPLINK_CHANNEL_MAP
